@@ -12,6 +12,34 @@ NOT_BUILT = "check not built yet in this round (claimed by DESIGN.md; " \
             "listed here until its static check exists and is exact)"
 
 CHECKS = {
+    "C13": {
+        "text": "Every subscript position of every boundscheck=False njit "
+                "kernel (58 kernels, ~640 sites) is an obligation "
+                "-extent <= index <= extent-1 discharged by abstract "
+                "interpretation for symbolic array shapes: linear facts, "
+                "Houdini template invariants at loop heads, element-range "
+                "summaries for kernel-written arrays, a triangular-number "
+                "lemma, exact Fourier-Motzkin entailment; refutations come "
+                "with a small integer model. Contracts (shapes / element "
+                "ranges per parameter) are tabled and discharged at the "
+                "allocation or validator that establishes them; producers "
+                "(decoders) are checked to store bin ids inside the range "
+                "the consumers (objective kernels) rely on; a kernel "
+                "without contract or an unreached site is reported.",
+        "design_ref": "DESIGN.md section 4, C13",
+        "note": "Decides D13.1-D13.3. Lemmas assumed and named in the "
+                "evidence: L1 (first item fits the empty first bin, backed "
+                "by C01), L2 (FEA y,y2 are true tour lengths, backed by "
+                "C05/C06), scratch reads only touch cells written in the "
+                "same call (C14). Not decided (listed, 2 sites): the "
+                "counter store dest[index] of __j_from_ode_compute (its "
+                "sizing is a polynomial identity, C10). Trusted: N3/N4 "
+                "numpy index semantics, P1/P2 element ranges of moptipy "
+                "spaces.",
+        "technique": "abstract interpretation (relational linear domain, "
+                     "Houdini invariants, Fourier-Motzkin entailment) + "
+                     "contract discharge at allocation sites",
+    },
     "C02": {
         "text": "Each of the seven objective kernels is summarised into a "
                 "closed form (arg-max-group, per-key accumulation, max "
